@@ -969,7 +969,7 @@ func (x *fnExec) buildQuery(o *Obl, useQuant bool, exact bool) (smt string, getV
 		hypT = And(Subst(o.hyp, x.caseSub), x.caseAssert)
 		goalT = Subst(o.goal, x.caseSub)
 	}
-	if os.Getenv("SCTPVC_DUMP") != "" && !o.Smoke && x.instLevel == 4 {
+	if os.Getenv("SCTPVC_DUMP") != "" && !o.Smoke && (x.instLevel == 4 || len(allQ) == 0) {
 		fmt.Fprintf(os.Stderr, "DUMP %s site=%s\n  GOAL %s\n  HYP %s\n", o.Name, o.Site, goalT.String(), hypT.String())
 		for _, g := range ground {
 			fmt.Fprintf(os.Stderr, "  FACT %s\n", g.String())
